@@ -481,8 +481,10 @@ def register (c : Cfg) (k : List Frame) (x p : Nat) : Cfg :=
   let root := (c.st.comp p).root
   if !(c.st.admissible x p) then c.raise k c.st .inadmissible
   else if (c.st.registerPre x p).1 then
-    if p != x then c.goto k (c.st.registerPre x p).2 [.updateRoot [x] root, .registerFin x]
-    else c.goto k (c.st.registerPre x p).2 [.updateRoot [x] root]
+    -- `_updateRoot` runs in the same step: no other code can observe the intermediate roots
+    if p != x then
+      c.goto k (St.updateRootAll (c.st.comps.length + 1) [x] root (c.st.registerPre x p).2) [.registerFin x]
+    else c.pop k (St.updateRootAll (c.st.comps.length + 1) [x] root (c.st.registerPre x p).2)
   else c.raise k (c.st.registerPre x p).2 .unregistrable
 
 def registerFin (c : Cfg) (k : List Frame) (x : Nat) : Cfg := c.pop k (c.st.registerFin x)
@@ -660,7 +662,7 @@ def invoke (c : Cfg) (k : List Frame) (_r h e : Nat) : Cfg :=
   | .user p => c.invokeUser k s h e hd.owner p
   | .prepUnregComplete =>
     -- _on_prepare_unregister_complete(self, event, e, value): event.parent is the prepare_unregister
-    c.goto k (s.prepUnregPre hd.owner) [.updateRoot [hd.owner] hd.owner, .prepUnregFin hd.owner]
+    c.goto k (St.updateRootAll (s.comps.length + 1) [hd.owner] hd.owner (s.prepUnregPre hd.owner)) [.prepUnregFin hd.owner]
   | .waitEvent w => c.popRet k (s.onWaitEvent w e).2 (.out (s.onWaitEvent w e).1)
   | .waitDone w => c.popRet k (s.onWaitDone w e).2 (.out (s.onWaitDone w e).1)
   | .waitTick w => c.popRet k (s.onWaitTick w).2 (.out (s.onWaitTick w).1)
